@@ -112,6 +112,7 @@ class Seq(V):
     tail: Optional[V] = None  # element value of the homogeneous tail
     opt: bool = False  # tail is at most one element (`?`)
     src: Optional[Path] = None
+    kind: str = "list"  # list | tuple | generator (mutability matters to passes that patch lists in place)
 
     def __repr__(self):
         return f"Seq({self.items}{', *' + repr(self.tail) if self.tail is not None else ''})"
@@ -1117,7 +1118,10 @@ class Interp:
         return self._display(n.elts, env, owner)
 
     def ev_Tuple(self, n, env, owner):
-        return self._display(n.elts, env, owner)
+        v = self._display(n.elts, env, owner)
+        if isinstance(v, Seq):
+            v.kind = "tuple"
+        return v
 
     def ev_Set(self, n, env, owner):
         vals = [self.ev(e, env, owner) for e in n.elts]
@@ -1517,7 +1521,10 @@ class Interp:
         return self._comp(n, env, owner)
 
     def ev_GeneratorExp(self, n, env, owner):
-        return self._comp(n, env, owner)
+        v = self._comp(n, env, owner)
+        if isinstance(v, Seq):
+            v.kind = "generator"
+        return v
 
     def _comp(self, n, env, owner) -> V:
         if len(n.generators) != 1:
